@@ -121,6 +121,7 @@ impl Parsable for ValueStoreBuilder {
                 let mut value_offsets: Vec<Offset> = Vec::with_capacity(value_count + 1);
                 let uninit = value_offsets.spare_capacity_mut();
                 let mut first = true;
+                let mut previous = Offset::zero();
                 for elem in &mut uninit[0..value_count] {
                     let value: Offset = if first {
                         first = false;
@@ -128,7 +129,14 @@ impl Parsable for ValueStoreBuilder {
                     } else {
                         parser.read_usized(offset_size)?.into()
                     };
-                    assert!(value.is_valid(data_size));
+                    // Values are stored one after the other, inside the store's data.
+                    if !value.is_valid(data_size) || value < previous {
+                        return Err(format_error!(
+                            &format!("Value offset ({value}) is not valid in a value store of {data_size} bytes."),
+                            parser
+                        ));
+                    }
+                    previous = value;
                     elem.write(value);
                 }
                 unsafe { value_offsets.set_len(value_count) }
